@@ -37,3 +37,19 @@ func init() {
 			"\t\t\tif db.Error != nil {\n\t\t\t\tdb.Rollback()\n\t\t\t} else {\n\t\t\t\tdb.Commit()\n\t\t\t}", "\t\t\tfailed := db.Error\n\t\t\tif failed != nil {\n\t\t\t\tdb.Rollback()\n\t\t\t} else {\n\t\t\t\tdb.Commit()\n\t\t\t}"}}},
 	)
 }
+
+func init() {
+	addMutants(
+		Mutant{Name: "n61-createtable-fk-flags-in-local", Property: "*", Rule: "NEUTRAL", Edits: []Edit{{"migrator/migrator.go",
+			"\t\t\tif !m.DB.DisableForeignKeyConstraintWhenMigrating && !m.DB.IgnoreRelationshipsWhenMigrating {\n\t\t\t\tfor _, rel := range stmt.Schema.Relationships.Relations {\n\t\t\t\t\tif rel.Field.IgnoreMigration {\n\t\t\t\t\t\tcontinue\n\t\t\t\t\t}\n\t\t\t\t\tif constraint := rel.ParseConstraint(); constraint != nil {\n\t\t\t\t\t\tif constraint.Schema == stmt.Schema {\n\t\t\t\t\t\t\tsql, vars := constraint.Build()",
+			"\t\t\tskipFK := m.DB.DisableForeignKeyConstraintWhenMigrating || m.DB.IgnoreRelationshipsWhenMigrating\n\t\t\tif !skipFK {\n\t\t\t\tfor _, rel := range stmt.Schema.Relationships.Relations {\n\t\t\t\t\tif rel.Field.IgnoreMigration {\n\t\t\t\t\t\tcontinue\n\t\t\t\t\t}\n\t\t\t\t\tif constraint := rel.ParseConstraint(); constraint != nil {\n\t\t\t\t\t\tif constraint.Schema == stmt.Schema {\n\t\t\t\t\t\t\tsql, vars := constraint.Build()"}}},
+		Mutant{Name: "n62-rowquery-unknown-count-in-both-arms", Property: "*", Rule: "NEUTRAL", Edits: []Edit{{"callbacks/row.go",
+			"\t\t\tdb.Statement.Dest = db.Statement.ConnPool.QueryRowContext(db.Statement.Context, db.Statement.SQL.String(), db.Statement.Vars...)\n\t\t}\n\n\t\tdb.RowsAffected = -1\n", "\t\t\tdb.Statement.Dest = db.Statement.ConnPool.QueryRowContext(db.Statement.Context, db.Statement.SQL.String(), db.Statement.Vars...)\n\t\t}\n\t\tconst unknown = -1\n\t\tdb.RowsAffected = unknown\n"}}},
+		Mutant{Name: "n63-replace-first-flag-in-local", Property: "*", Rule: "NEUTRAL", Edits: []Edit{{"association.go",
+			"\t\t\tappendToRelations(reflectValue, rv, clear && idx == 0)", "\t\t\tfirst := idx == 0\n\t\t\tappendToRelations(reflectValue, rv, clear && first)"}}},
+		Mutant{Name: "n64-map-create-column-alias", Property: "*", Rule: "NEUTRAL", Edits: []Edit{{"callbacks/helper.go",
+			"\t\tif v, ok := selectColumns[k]; (ok && v) || (!ok && !restricted) {\n\t\t\tvalues.Columns = append(values.Columns, clause.Column{Name: k})", "\t\tcolumn := k\n\t\tif v, ok := selectColumns[column]; (ok && v) || (!ok && !restricted) {\n\t\t\tvalues.Columns = append(values.Columns, clause.Column{Name: k})"}}},
+		Mutant{Name: "n65-scan-error-check-restructured", Property: "*", Rule: "NEUTRAL", Edits: []Edit{{"scan.go",
+			"\tif err := rows.Err(); err != nil && err != db.Error {\n\t\tdb.AddError(err)\n\t}", "\tif iterErr := rows.Err(); iterErr != nil {\n\t\tif iterErr != db.Error {\n\t\t\tdb.AddError(iterErr)\n\t\t}\n\t}"}}},
+	)
+}
